@@ -528,10 +528,28 @@ func (sys *sm9sys) kx(i int, st Step) *Mismatch {
 	if mm := sm9NoErr(i, err, "GenerateUserKey"); mm != nil {
 		return mm
 	}
+	// each party reads its messages into ONE receive buffer that the next message overwrites: a protocol object may not depend on
+	// the buffer of a received message between calls (the identities given to the constructor are left alone: a constructor may keep them)
 	ini := ka.NewKeyExchange(ida, st.Hex("peera"), klen, confirm)
 	rsp := kb.NewKeyExchange(idb, st.Hex("peerb"), klen, confirm)
 	defer ini.Destroy()
 	defer rsp.Destroy()
+	rxA, rxB := make([]byte, 0, 512), make([]byte, 0, 512)
+	recv := func(rx *[]byte, msgs ...[]byte) [][]byte { // the messages of one delivery, laid out in the party's receive buffer
+		full := (*rx)[:cap(*rx)]
+		for j := range full {
+			full[j] = 0xA5
+		}
+		out, at := make([][]byte, len(msgs)), 0
+		for k, m := range msgs {
+			if m != nil {
+				out[k] = full[at : at+len(m) : at+len(m)]
+				copy(out[k], m)
+				at += len(m)
+			}
+		}
+		return out
+	}
 	alter := func(b []byte, when string) []byte {
 		if variant != when {
 			return b
@@ -548,7 +566,7 @@ func (sys *sm9sys) kx(i int, st Step) *Mismatch {
 	}
 	got := ""
 	func() {
-		rb, sb, err := rsp.RespondKeyExchange(sm9ScriptOf(st, "scriptb"), hid, alter(ra, "tamper_ra"))
+		rb, sb, err := rsp.RespondKeyExchange(sm9ScriptOf(st, "scriptb"), hid, recv(&rxB, alter(ra, "tamper_ra"))[0])
 		if err != nil {
 			got = "err_respond"
 			return
@@ -561,7 +579,8 @@ func (sys *sm9sys) kx(i int, st Step) *Mismatch {
 			got = fmt.Sprintf("S_B of %d bytes", len(sb))
 			return
 		}
-		keyA, sa, err := ini.ConfirmResponder(alter(rb, "tamper_rb"), alter(sb, "tamper_sb"))
+		inA := recv(&rxA, alter(rb, "tamper_rb"), alter(sb, "tamper_sb"))
+		keyA, sa, err := ini.ConfirmResponder(inA[0], inA[1])
 		if err != nil {
 			got = "err_confirm_a"
 			return
@@ -572,8 +591,9 @@ func (sys *sm9sys) kx(i int, st Step) *Mismatch {
 		}
 		var keyB []byte
 		if confirm {
-			keyB, err = rsp.ConfirmInitiator(alter(sa, "tamper_sa"))
+			keyB, err = rsp.ConfirmInitiator(recv(&rxB, alter(sa, "tamper_sa"))[0])
 		} else {
+			recv(&rxB) // the buffer is reused for something else in the meantime
 			keyB, err = rsp.ConfirmInitiator(nil)
 		}
 		if err != nil {
